@@ -20,7 +20,7 @@ TRUSTED_BASE = ["Lean 4 kernel", "extractor: operator tokens", "Model/Vars.lean,
 ASSUMPTIONS = ["resolvers are finite tables", "settings whose substituted text parses as a number/bool/list are compared with the model only "
                "(the code re-types spliced text through parse.Value)"]
 
-WORDS = ["alpha", "beta", "gam ma", "delta", "x-y", "q", "zz top"]
+WORDS = ["alpha", "beta", "gam ma", "delta", "x-y", "q", "zz top", "cost$", "a}b", "$"]
 NAMES = ["n0", "n1", "n2", "n3", "o.k", "o.j", "p"]
 
 
